@@ -60,6 +60,41 @@ def _playback_on_real_code(scratch, unit, harness, test_text):
     return None, out[-3000:]
 
 
+TEST_TARGET = os.path.join(os.path.dirname(KANI_TARGET), "test-target")
+
+
+def run_custom_replay(prop, scratch, test_names):
+    """Run canned replay tests (real instances built with the repository's own test builders) against the scratch copy of
+    the working tree. Returns list of dict(test, reproduced, output). A test that FAILS reproduces the violation."""
+    out = []
+    by_mod = {}
+    for rp in getattr(prop, "replays", []):
+        src = open(os.path.join(VERIF, rp["module"])).read()
+        for t in test_names:
+            if re.search(r"\bfn\s+" + re.escape(t) + r"\b", src):
+                by_mod.setdefault(rp["module"], (rp, []))[1].append(t)
+    for modfile, (rp, tests) in by_mod.items():
+        p = scratch.path(rp["file"])
+        s = open(p).read()
+        modname = "verif_replay_" + re.sub(r"\W", "_", os.path.basename(modfile).replace(".rs", ""))
+        if modname not in s:
+            s += "\n#[cfg(test)]\n#[path = \"%s\"]\nmod %s;\n" % (os.path.join(VERIF, modfile), modname)
+            open(p, "w").write(s)
+        for t in tests:
+            cmd = ["cargo", "test", "-p", rp["crate"], "--lib", "--offline", modname + "::" + t, "--", "--nocapture"]
+            rc, o, secs = run(cmd, cwd=scratch.tree, timeout=3000, env={"CARGO_TARGET_DIR": TEST_TARGET, "RUST_BACKTRACE": "0"})
+            if rc is None:
+                out.append(dict(test=t, reproduced=None, output="timeout"))
+            elif re.search(r"test result: FAILED", o):
+                m = re.search(r"panicked at[^\n]*\n([^\n]*)", o)
+                out.append(dict(test=t, reproduced=True, failing_input=(m.group(1) if m else ""), output=o[-2500:], cmd=" ".join(cmd)))
+            elif re.search(r"test result: ok\. 1 passed", o):
+                out.append(dict(test=t, reproduced=False, output=o[-600:], cmd=" ".join(cmd)))
+            else:
+                out.append(dict(test=t, reproduced=None, output=o[-2500:], cmd=" ".join(cmd)))
+    return out
+
+
 def make_violation(prop, scratch, v, n, harness_reports):
     os.makedirs(REPLAY_DIR, exist_ok=True)
     if "harness" in v:
@@ -78,6 +113,10 @@ def make_violation(prop, scratch, v, n, harness_reports):
                                                   how="Kani's generated unit test run with `cargo kani playback`: the harness body calls the real, un-stubbed functions on the concrete values")
             else:
                 rec["playback_output"] = out[-3000:]
+        elif h.replay.startswith("custom:"):
+            res = run_custom_replay(prop, scratch, h.replay[len("custom:"):].split(","))
+            rec["replay_on_real_code"] = res
+            reproduced = any(r["reproduced"] for r in res)
         rec["failing_input_found"] = bool(reproduced)
         write_json(path, rec)
         suffix = "" if reproduced else " no-failing-input-found"
@@ -91,8 +130,13 @@ def make_violation(prop, scratch, v, n, harness_reports):
                paired_kani_failures=[p["harness"] for p in paired], failing_input_found=False,
                note="Verus gives no counterexample; the paired Kani harnesses (bounded twins of the same functions) %s" %
                     ("failed too: see their replay files" if paired else "did not fail"))
+    tests = ["replay_" + f["function"].rsplit("::", 1)[-1] for f in v["failed"]]
+    res = run_custom_replay(prop, scratch, tests)
+    rec["replay_on_real_code"] = res
+    reproduced = any(r["reproduced"] for r in res)
+    rec["failing_input_found"] = bool(reproduced) or bool(paired)
     write_json(path, rec)
-    return "VIOLATION property=%s replay=%s no-failing-input-found" % (prop.id, path)
+    return "VIOLATION property=%s replay=%s%s" % (prop.id, path, "" if reproduced else " no-failing-input-found")
 
 
 def _strip_json(raw):
